@@ -105,6 +105,7 @@ class C06A(Machine):
     def run(self, plan, rec):
         cfg = plan["config"]
         pool = plan["initial"]["pool"]
+        self._pool = pool
         nshards = plan["initial"]["nshards"]
         ns = dendropy.TaxonNamespace(cfg["labels"])
         given = cfg["shard_rooting_given"]
@@ -310,7 +311,16 @@ class C06A(Machine):
             return None
         if what == "summarize":
             ti = members[st["k"] % len(members)]
-            return None if True else ti
+            t1 = self._tree(cfg, ta.taxon_namespace, self._pool[ti])
+            t2 = self._tree(cfg, ta.taxon_namespace, self._pool[ti])
+            kw = {}
+            if st["k"] % 3 == 1:
+                kw["set_edge_lengths"] = "mean-length" if not cfg["ignore_edge_lengths"] else "support"
+            elif st["k"] % 3 == 2:
+                kw["support_as_percentages"] = True
+            ta.summarize_splits_on_tree(t1, **kw)
+            ref.summarize_splits_on_tree(t2, **kw)
+            return _tree_diff(t1, t2, cfg, all_annotations=True)
         return None
 
 
@@ -320,7 +330,18 @@ def _splitset(tree, cfg):
     return sorted(tuple(sorted(s)) for s in sl)
 
 
-def _tree_diff(ta, tb, cfg):
+def _ann_close(a, b):
+    if a == b:
+        return True
+    if isinstance(a, (list, tuple)) and isinstance(b, (list, tuple)) and len(a) == len(b):
+        return all(_ann_close(x, y) for x, y in zip(a, b))
+    fa, fb = _f(a), _f(b)
+    if fa is not None and fb is not None:
+        return _rel(fa, fb)
+    return False
+
+
+def _tree_diff(ta, tb, cfg, all_annotations=False):
     if ta.is_rooted != tb.is_rooted:
         return ("rooting", "rooting %s vs %s" % (ta.is_rooted, tb.is_rooted))
     rooted = bool(ta.is_rooted)
@@ -332,7 +353,10 @@ def _tree_diff(ta, tb, cfg):
         if not _rel(sa[k], sb[k]):
             return ("edge_length", "length of split %s: %s vs %s" % (sorted(k), sa[k], sb[k]))
     # supports by split
-    def supports(t):
+    extra_a, extra_b = {}, {}
+
+    def supports(t, extra=None):
+        extra = extra if extra is not None else {}
         out = {}
         nodes, below = rawtree.clade_sets(t, key=lambda x: x.label)
         allk = below[id(nodes[0])]
@@ -343,8 +367,11 @@ def _tree_diff(ta, tb, cfg):
                 c = allk - c
             sup = nd.annotations.get_value("support", None)
             out.setdefault(c, []).append((nd.label, sup))
+            if all_annotations:
+                extra.setdefault(c, []).append((sorted((a.name, a.value) for a in nd.annotations),
+                                                sorted((a.name, a.value) for a in nd.edge.annotations)))
         return out
-    pa, pb = supports(ta), supports(tb)
+    pa, pb = supports(ta, extra_a), supports(tb, extra_b)
     for k in pa:
         xa = sorted(pa[k], key=repr)
         xb = sorted(pb.get(k, []), key=repr)
@@ -354,6 +381,16 @@ def _tree_diff(ta, tb, cfg):
             fa, fb = _f(va), _f(vb)
             if (fa is None) != (fb is None) or (fa is not None and not _rel(fa, fb)) or str(la) != str(lb):
                 return ("support", "support of split %s: %s vs %s" % (sorted(k), xa, xb))
+    if all_annotations:
+        for k in extra_a:
+            xa = sorted(extra_a[k], key=repr)
+            xb = sorted(extra_b.get(k, []), key=repr)
+            if len(xa) != len(xb):
+                return ("annotations", "annotation sets of split %s differ in number" % sorted(k))
+            for (na, ea), (nb, eb) in zip(xa, xb):
+                for la, lb in ((na, nb), (ea, eb)):
+                    if [x[0] for x in la] != [x[0] for x in lb] or not all(_ann_close(x[1], y[1]) for x, y in zip(la, lb)):
+                        return ("annotations", "summary annotations of split %s: %s vs %s" % (sorted(k), la, lb))
     return None
 
 
